@@ -29,13 +29,12 @@ df = import_df()
 
 TMP = tempfile.mkdtemp(prefix="c10_")
 
-# The three limits of the format (spec "assumptions"; Coq witnesses C10_roundtrip_*_refuted) are probed
-# with cases whose model prediction is compared in Coq, but the oracle does not flag them.  If the
-# maintainer decides they are defects of the implementation rather than limits of the format, set this
-# to True: the probes are then flagged under the tags below (known_findings.json ids).
-LIMITS_ARE_FINDINGS = False
-LIMIT_TAGS = {"unit-is-the-marker": "C10-unit-marker", "int-beyond-2**53": "C10-int-beyond-2p53",
-              "labels-absent-on-vector": "C10-absent-labels"}
+# Known finding C10-unit-marker (known_findings.json): a unit whose text is literally 'None' collides with
+# the marker written for unit-less fields.  The model is faithful there (Coq witness
+# C10_roundtrip_unit_marker_refuted); the oracle flags exactly those cases (clause "unit") under the tag.
+# rc["limit"] also labels two former limits that were repaired in the reader (66ed56c8: payload dtype kept,
+# 8f3270c2: label-less vectors stay label-less); they are ordinary cases now, the label only feeds the case key.
+KNOWN_UNIT_MARKER = "C10-unit-marker"
 TWO53 = 2 ** 53
 
 
@@ -583,7 +582,7 @@ def generate(rng, tier):
         rc = gen_round(rng, tier, force)
         if rc["unit"] == "None":
             rc["limit"].append("unit-is-the-marker")
-        if rc["vdims"] is None and rc["nvdim"] > 1 and rng.random() < 0.04 and rc["nvdim"] != rc["nd"]:
+        if rc["vdims"] is None and rc["nvdim"] > 1 and rng.random() < 0.12 and rc["nvdim"] != rc["nd"]:
             rc["vdims"] = []
             rc["limit"].append("labels-absent-on-vector")
         if np.dtype(rc["dtype"]).kind in "iu" and np.dtype(rc["dtype"]).itemsize == 8 and rng.random() < 0.3:
@@ -663,12 +662,11 @@ def same_num(a, b):
 
 def oracle_round(rc, s0, s1, f, g_, s0_after):
     bad = []
-    limit = [] if LIMITS_ARE_FINDINGS else (rc.get("limit") or [])
     if s0_after != s0:
         bad.append("writing-changed-the-field")
     with np.errstate(all="ignore"):
         self_equal = bool(f == f)
-        if self_equal and not bool(g_ == f) and "int-beyond-2**53" not in limit:
+        if self_equal and not bool(g_ == f):
             bad.append("read-back-field-not-equal")
     for key, clause in [("pmin", "region-pmin"), ("pmax", "region-pmax"), ("ck", "region-corner-type"),
                         ("dims", "dims"), ("units", "units"), ("tf", "tolerance-factor"), ("n", "n"),
@@ -683,15 +681,15 @@ def oracle_round(rc, s0, s1, f, g_, s0_after):
                 bad.append("subregion-corners")
             if (a["dims"], a["units"], a["tf"]) != (b["dims"], b["units"], b["tf"]):
                 bad.append("subregion-attributes")
-    if s0["vdims"] != s1["vdims"] and "labels-absent-on-vector" not in limit:
+    if s0["vdims"] != s1["vdims"]:
         bad.append("component-labels")
-    if s0["unit"] != s1["unit"] and "unit-is-the-marker" not in limit:
+    if s0["unit"] != s1["unit"]:
         bad.append("unit")
     if (s0["dk"] == "c") != (s1["dk"] == "c"):
         bad.append("real-complex-kind")
     if s0["shape"] != s1["shape"]:
         bad.append("array-shape")
-    elif "int-beyond-2**53" not in limit:
+    else:
         if any(not same_num(a, b) for a, b in zip(s0["vals"], s1["vals"])):
             bad.append("values")
         elif f.array.dtype == g_.array.dtype and f.array.tobytes() != g_.array.tobytes():
@@ -753,7 +751,7 @@ def run_round(rc):
         rec["coq"] = f"CRound false {c_state(s0)} {g.opt(view, c_view)} None"
         return rec
     g_, s1 = back
-    in_domain = not ({"unit-is-the-marker", "labels-absent-on-vector"} & set(rc.get("limit") or []))
+    in_domain = s0["unit"] != "None"          # the one guard of C10_roundtrip beyond the constructor invariants
     rec["oracle"] = oracle_round(rc, s0, s1, f, g_, s0_after)
     back_brief = {k: s1[k] for k in ("ck", "pmin", "pmax", "dims", "units", "tf", "n", "bc", "nvdim", "vdims", "unit",
                                      "dtype")}
@@ -764,7 +762,8 @@ def run_round(rc):
                coq=f"CRound {g.b(in_domain)} {c_state(s0)} {g.opt(view, c_view)} (Some {c_state(s1)})")
     if rc.get("limit"):
         rec["obs"]["limit_probe"] = "+".join(rc["limit"])
-        rec["tags"] = [LIMIT_TAGS[x] for x in rc["limit"]]
+    if s0["unit"] == "None":
+        rec["tags"] = [KNOWN_UNIT_MARKER]
     return rec
 
 
@@ -835,7 +834,8 @@ def apply_defect(v, d, rng):
     elif d == "no-subs":
         v["subs"] = None
     elif d == "vdims-marker-on-vector":
-        if v["nvdim"] < 2:
+        # (with nvdim == ndim the Field constructor itself cannot build a label-less field)
+        if v["nvdim"] < 2 or v["nvdim"] == nd:
             return False
         v["vdims"] = "None"
     elif d == "sub-int-table":
@@ -1021,6 +1021,9 @@ def stats(records):
         if k in ("foreign", "legacy"):
             k += "/" + ("accepted" if r["obs"].get("outcome") == "ok" else "rejected")
         out[k] = out.get(k, 0) + 1
+        if r["kind"] == "round" and isinstance(r["obs"].get("state"), dict):
+            dk_ = "payload:" + str(r["obs"]["state"].get("dtype"))
+            out[dk_] = out.get(dk_, 0) + 1
         lp = r["obs"].get("limit_probe") if isinstance(r.get("obs"), dict) else None
         if lp:
             out["limit:" + lp] = out.get("limit:" + lp, 0) + 1
